@@ -10,3 +10,7 @@ add("C07", "property-based testing (Hypothesis) against a sweep-line reference m
     "Generated-input search: communication/computation interval arrangements with frequent shared endpoints; the reported percentage is compared (tolerance 0.005) with 100*|U comm ^ U comp|/|U comm| from an endpoint sweep; range 0..100 checked directly.",
     "Trusts hv/model/intervals.py and the vocabulary tags; NaN accepted only when the communication union has measure 0.",
     "DESIGN.md §5 C07")
+add("C03", "property-based testing (Hypothesis): innermost-enclosing-span reference model + validity predicate for zero-duration events",
+    "Generated-input search over properly nested span families (ties of every kind, zero-duration events at every kind of position, arbitrary ids, permuted rows): both call-stack builders are called directly and through Trace+CallGraph on a written file; parents of positive events must equal the model's innermost container, every id appears once, children = inverse of parent, depth = #ancestors; zero-duration events are checked by a validity predicate that accepts every legal placement.",
+    "Trusts the quadratic reference model in hv/gen/spans.py; families of <= 26 events, depth <= 5; thorough tier explores 16x20000 families.",
+    "DESIGN.md §5 C03")
